@@ -216,3 +216,27 @@ Section Sem.
     rewrite Hl. reflexivity.
   Qed.
 End Sem.
+
+(* ------------------------------------------------------------------ *)
+(* "slot < stack height" is not an invariant of the VM                 *)
+(* ------------------------------------------------------------------ *)
+(* ScalarNil; Closure h=0 arity=0; RegisterUpvalue 0 local; Pop; Exit - hand-written bytecode, not compiler output:
+   the captured local is popped without a CloseUpvalue.  The run ends normally with the value stack EMPTY and the
+   open upvalue (object 1) still pointing at slot 0. *)
+Definition dead_slot_program : program :=
+  mkProgram [7; 42; 0; 0; 0; 0; 0; 0; 0; 0; 45; 0; 1; 16; 10]%N [] [] [] [] [].
+
+Theorem open_slot_may_be_dead : forall F bld,
+  let r := run F bld 100 dead_slot_program fresh_state in
+  fst r = OOk /\ vm_ok (snd r) /\ open_list (snd r) [(1%N, 0)] /\ scount (snd r) = 0 /\ ~ open_live (snd r).
+Proof.
+  intros F bld r.
+  assert (E : fst r = OOk /\ chain_of 5 (st_heap (snd r)) (st_open (snd r)) = Some [(1%N, 0)] /\ scount (snd r) = 0).
+  { destruct bld; vm_compute; repeat split. }
+  destruct E as (E1 & E2 & E3). apply chain_of_sound in E2.
+  split; [exact E1|]. split.
+  - destruct r as [o s'] eqn:Er. cbn [fst snd] in *. eapply run_vm_ok; [apply fresh_state_vm_ok|exact Er|].
+    intros a Ha. rewrite E1 in Ha. discriminate.
+  - split; [exact E2|]. split; [exact E3|].
+    intros Hl. specialize (Hl _ E2). inversion Hl; subst. cbn [snd] in *. lia.
+Qed.
